@@ -806,7 +806,7 @@ func MutexDeadlock() string {
 			if strings.HasPrefix(state, "running") || strings.HasPrefix(state, "runnable") || strings.HasPrefix(state, "syscall") || strings.HasPrefix(state, "sleep") {
 				v.live = true
 			}
-			if strings.HasPrefix(state, "sync.Mutex.Lock") || strings.HasPrefix(state, "sync.RWMutex") || strings.HasPrefix(state, "semacquire") {
+			if (strings.HasPrefix(state, "sync.Mutex.Lock") || strings.HasPrefix(state, "sync.RWMutex") || strings.HasPrefix(state, "semacquire")) && lockTakenByLibrary(body) {
 				id := head
 				if i := strings.Index(head, " ["); i >= 0 {
 					id = head[:i]
@@ -848,6 +848,23 @@ func AnyLive(gs []string) bool {
 				return true
 			}
 		}
+	}
+	return false
+}
+
+// lockTakenByLibrary: the frame that asked for the lock (the first one below the runtime / sync frames) is library
+// code. A library goroutine waiting for a lock of the harness (the in-memory connection's, say, under a flood of
+// tiny frames) is contention in the harness, not a lock of the library that nobody will release.
+func lockTakenByLibrary(stack string) bool {
+	lines := strings.Split(stack, "\n")
+	for _, l := range lines[1:] {
+		if strings.HasPrefix(l, "\t") || l == "" {
+			continue
+		}
+		if strings.HasPrefix(l, "internal/sync.") || strings.HasPrefix(l, "sync.") || strings.HasPrefix(l, "runtime.") || strings.HasPrefix(l, "internal/runtime") {
+			continue
+		}
+		return strings.HasPrefix(l, "github.com/dgrr/http2.")
 	}
 	return false
 }
